@@ -369,3 +369,70 @@ Proof.
     destruct (new_group_range d r t I Hview Ht Hcov) as [Rg Dg].
     apply pol_ok_cons; auto.
 Qed.
+
+(* ---------- CreateShardGroup is idempotent ---------- *)
+
+Lemma clip_range_bounds t l : forall s0 e0,
+  (s0 <= t)%Z -> (t < e0)%Z ->
+  (fst (clip_range t l (s0, e0)) <= t)%Z /\ (t < snd (clip_range t l (s0, e0)))%Z.
+Proof.
+  unfold clip_range. induction l as [|g l IH]; cbn; intros s0 e0 Hs He; [lia|].
+  destruct (g_deleted g); [apply IH; auto|].
+  apply IH; repeat match goal with |- context [if ?b then _ else _] => destruct b eqn:? end; lia.
+Qed.
+
+Lemma find_upd_first_same {A} (p : A -> bool) f l x :
+  find p l = Some x -> p (f x) = true -> find p (upd_first p f l) = Some (f x).
+Proof.
+  induction l as [|y t IH]; cbn; [discriminate|]. destruct (p y) eqn:E.
+  - intros H Hp; inversion H; subst. cbn. rewrite Hp. reflexivity.
+  - intros H Hp. cbn. rewrite E. auto.
+Qed.
+
+(* "there is nothing to create": no data node, or a live group of the policy holds t *)
+Definition Covered (d : data) (dbn pol : string) (t : Z) : Prop :=
+  d_nodes d = [] \/
+  exists x r, find_db d dbn = Some x /\ find_rp x pol = Some r /\ existsb (g_covers t) (rp_groups r) = true.
+
+Lemma Covered_noop d dbn pol t : Covered d dbn pol t -> create_shard_group d dbn pol t = Ok d.
+Proof.
+  unfold create_shard_group. intros [H|(x & r & Hx & Hr & Hc)].
+  - rewrite H. reflexivity.
+  - destruct (d_nodes d); auto. rewrite Hx, Hr, Hc. reflexivity.
+Qed.
+
+Lemma create_shard_group_Covered d dbn pol t d1 :
+  Inv d -> (t <= c06_max_nano_time)%Z -> create_shard_group d dbn pol t = Ok d1 -> Covered d1 dbn pol t.
+Proof.
+  intros I Ht. unfold create_shard_group. destruct (d_nodes d) as [|n0 ns] eqn:En.
+  { intros H; inversion H; subst. left; auto. }
+  destruct (find_db d dbn) as [x|] eqn:Ex; [|discriminate].
+  destruct (find_rp x pol) as [r|] eqn:Erp; [|discriminate].
+  destruct (existsb (g_covers t) (rp_groups r)) eqn:Ec; intros H; inversion H; subst; clear H.
+  { right. exists x, r. auto. }
+  right. set (g := new_group d r t).
+  set (F := fun r0 : policy => rp_set_groups r0 (sort_groups (rp_groups r0 ++ [g]))).
+  exists (upd_rp x pol F), (F r). split; [|split].
+  - unfold find_db, upd_db; cbn [d_dbs set_dbs set_group_counters].
+    apply (find_upd_first_same (fun y => String.eqb (db_name y) dbn) (fun y => upd_rp y pol F)); auto.
+    cbn. unfold find_db in Ex. apply find_some in Ex. apply Ex.
+  - unfold find_rp, upd_rp; cbn [db_rps db_set_rps].
+    apply (find_upd_first_same (fun y => String.eqb (rp_name y) pol) F); auto.
+    cbn. unfold find_rp in Erp. apply find_some in Erp. apply Erp.
+  - cbn [F rp_groups rp_set_groups]. apply existsb_exists. exists g. split.
+    + eapply Permutation_in; [apply Permutation_sym, sort_snoc_perm|left; auto].
+    + assert (Hview : In (pview r) (views d)).
+      { rewrite <- all_policies_views. apply in_map. unfold all_policies. apply in_flat_map.
+        unfold find_db in Ex. apply find_some in Ex. unfold find_rp in Erp. apply find_some in Erp.
+        exists x. intuition. }
+      pose proof (inv_views _ I) as Hv. rewrite Forall_forall in Hv. destruct (Hv _ Hview) as [Hsg _]. cbn in Hsg.
+      pose proof (time_truncate_bounds t (rp_sgdur r) Hsg) as Hb.
+      set (s0 := time_truncate t (rp_sgdur r)) in *.
+      set (e0 := if (c06_max_nano_time <? s0 + rp_sgdur r)%Z then (c06_max_nano_time + 1)%Z else (s0 + rp_sgdur r)%Z).
+      assert (He0 : (t < e0)%Z) by (unfold e0; destruct (c06_max_nano_time <? s0 + rp_sgdur r)%Z; lia).
+      destruct (clip_range_bounds t (rp_groups r) s0 e0) as [A B]; [lia|auto|].
+      assert (Es : g_start g = fst (clip_range t (rp_groups r) (s0, e0))) by reflexivity.
+      assert (Ee : g_end g = snd (clip_range t (rp_groups r) (s0, e0))) by reflexivity.
+      unfold g_covers. rewrite Es, Ee. cbn [g_deleted g_trunc g new_group].
+      apply andb_true_iff; split; [apply andb_true_iff; split; [apply andb_true_iff; split|]|]; auto; lia.
+Qed.
